@@ -45,7 +45,7 @@ CONSTANTS HdrSets,      \* the subsets of Hdrs enumerated in this configuration
 
 ConnVers  == {"h1", "h2"}
 ReqVers   == {"1.0", "1.1", "2"}
-Alpns     == {"notls", "noalpn", "http/1.1", "h2"}      \* no TLS | TLS without ALPN | TLS + ALPN result
+Alpns     == {"notls", "noalpn", "http/1.1", "h2", "h3", "spdy/3.1"}      \* no TLS | TLS without ALPN | TLS + ALPN result (only h2 selects HTTP/2)
 HostKinds == {"name", "v4", "v6"}
 Ports     == {"absent", "default", "xdefault", "other"} \* xdefault: the default port of the OTHER scheme family
 Paths     == {"empty", "slash", "long"}
